@@ -30,6 +30,27 @@ CHECKS = {
         "bounds on frames/K/window; absence counted in frames; well-separated geometry fixed; merging validated by replay on fresh trackers",
         "DESIGN.md §3 C10",
     ),
+    "C06": (
+        "model_checking",
+        "exhaustive small-scope enumeration of all maps <=3x3 over <=5 value levels x thresholds x two batch packings against a brute-force neighbour scan",
+        "Every h x w map (h,w<=3, strips<=5; thorough adds 3x4/4x3/4x4) over a small value alphabet incl. ties, plateaus, negatives and border maxima is pushed through the real find_local_peaks_rough / find_local_peaks for every threshold in two (samples,channels) packings; the returned multiset must equal the brute-force strict-local-maximum set; refinement keeps count/order/indices and moves <= (patch-1)/2. Complete within the bound.",
+        "map size / value alphabet bound; refinement bound asserted on non-negative maps with positive mass",
+        "DESIGN.md §3 C06",
+    ),
+    "C07": (
+        "model_checking",
+        "exhaustive small-scope enumeration of all maps <=3x3 over <=4 value levels (every tie pattern) x thresholds x packings, plus the quarter-pixel lattice of Gaussian centres",
+        "Every small map incl. every tie pattern, border/corner maxima and below-threshold maps through the real find_global_peaks_rough / find_global_peaks: reported cell in the argmax set with the max value, NaN/0 below threshold, packing independence; refinement bounded, zero on symmetric bumps and improving on every Gaussian centre of the lattice. Complete within the bound.",
+        "map size / alphabet bound; improvement clause asserted for interior centres (zero-padded border patches are biased by construction)",
+        "DESIGN.md §3 C07",
+    ),
+    "C13": (
+        "model_checking",
+        "stateless exploration of ALL thread interleavings (cooperative scheduler, DFS with prefix replay) of the real reader thread and the real consumer loop, x queue capacity x batch x range x injected read fault",
+        "The real VideoReader/LabelsReader.run (in a real thread) and the real Predictor._predict_generator run under a cooperative scheduler whose scheduling points are the queue operations and thread start/join/end; every interleaving of every grid point (N, range, capacity, batch size, fault index) is executed to completion and the stream-trace + termination oracle is evaluated on each; deadlock = no enabled thread. No preemption bound is needed: the space is explored completely.",
+        "frame reads are reader-local (not scheduling points); GIL + queue.Queue lock trusted; timeouts modelled as nondeterministic Empty/Full; free-running sanity pass on the real queue.Queue is not part of the coverage claim",
+        "DESIGN.md §3 C13",
+    ),
 }
 
 NOT_YET = {}
